@@ -1,8 +1,71 @@
+/-
+  Driver handlers of component `aaverisk` (JSON protocol): the harness sends the implementation's dumped
+  portfolio (`_supplies`, `_borrows` in dict order, each entry with its token's row for the bar) and gets the
+  model's answer under `NumCtx.py` (or `exact`).
+-/
 import Demeter.Drv.Json
+import Demeter.AaveRisk
 namespace Demeter.Drv
-open Demeter Lean
+open Demeter Demeter.AaveRisk Lean
+
+namespace AR
+
+def parseRow (j : Json) : Except String Row := do
+  pure { liqIndex := ← jRat j "li", borIndex := ← jRat j "bi", price := ← jRat j "p",
+         ltv := ← jRat j "ltv", lt := ← jRat j "lt", bonus := ← jRat j "bonus",
+         canColl := ← jBool j "cc", canBorrow := ← jBool j "cb" }
+
+def parseSupply (j : Json) : Except String Supply := do
+  pure { tok := ← jStr j "tok", base := ← jRat j "base", coll := ← jBool j "coll", row := ← parseRow (← jObj j "row") }
+
+def parseDebt (j : Json) : Except String Debt := do
+  pure { tok := ← jStr j "tok", base := ← jRat j "base", row := ← parseRow (← jObj j "row") }
+
+def parsePortfolio (j : Json) : Except String Portfolio := do
+  let ss ← (← jArr j "supplies").toList.mapM parseSupply
+  let ds ← (← jArr j "debts").toList.mapM parseDebt
+  pure { supplies := ss, debts := ds }
+
+def xratJ (x : XRat) : Json := match x with
+  | some v => ratJ v
+  | none => .str "inf"
+
+def portfolioJ (p : Portfolio) : Json :=
+  Json.mkObj [
+    ("supplies", .arr (p.supplies.map (fun s => Json.mkObj [("tok", .str s.tok), ("base", ratJ s.base), ("coll", .bool s.coll)])).toArray),
+    ("debts", .arr (p.debts.map (fun d => Json.mkObj [("tok", .str d.tok), ("base", ratJ d.base)])).toArray)]
+
+def actionJ (a : LiqAction) : Json :=
+  Json.mkObj [("collTok", .str a.collTok), ("debtTok", .str a.debtTok), ("toCover", ratJ a.toCover),
+    ("collUsed", ratJ a.collUsed), ("debtRepaid", ratJ a.debtRepaid), ("hfBefore", xratJ a.hfBefore),
+    ("hfAfter", xratJ a.hfAfter), ("collAfter", ratJ a.collAfter), ("debtAfter", ratJ a.debtAfter),
+    ("half", .bool a.half), ("capped", .bool a.capped)]
+
+def excJ (e : Option Exc) : Json := match e with
+  | some e => .str e.name
+  | none => .null
+
+def figuresJ (cx : NumCtx) (p : Portfolio) : Json :=
+  Json.mkObj [("hf", xratJ (healthFactor cx p)), ("maxLtv", xratJ (maxLtv cx p)),
+    ("liqThreshold", xratJ (liqThreshold cx p)), ("ltv", xratJ (ltv cx p)),
+    ("totalSupply", ratJ (totalSupply cx p)), ("totalCollateral", ratJ (totalCollateral cx p)),
+    ("totalDebt", ratJ (totalDebt cx p)), ("netValue", ratJ (netValue cx p))]
+
+end AR
 
 def aaveRiskHandlers : List (String × Handler) := []
-def aaveRiskJHandlers : List (String × JHandler) := []
+
+def aaveRiskJHandlers : List (String × JHandler) := [
+  ("figures", fun j => do
+    let p ← AR.parsePortfolio (← jObj j "state")
+    pure (AR.figuresJ (jCtx j) p)),
+  ("liquidate", fun j => do
+    let cx := jCtx j
+    let p ← AR.parsePortfolio (← jObj j "state")
+    let r := liquidate cx p
+    pure (Json.mkObj [("state", AR.portfolioJ r.p), ("actions", .arr (r.actions.map AR.actionJ).toArray),
+      ("visited", .arr (r.visited.map Json.str).toArray), ("error", AR.excJ r.err), ("outOfFuel", .bool r.outOfFuel),
+      ("before", AR.figuresJ cx p), ("after", AR.figuresJ cx r.p)]))
+]
 
 end Demeter.Drv
